@@ -72,7 +72,7 @@ func decoderInputFileInfoIDs(infos []decoderInputFileInfo) []fileID {
 	return fileIDs
 }
 
-func makeDecoderInputFileInfos(fileIDs []fileID, fileDescriptionPackets map[fileID]fileDescriptionPacket, ifscPackets map[fileID]ifscPacket) ([]decoderInputFileInfo, error) {
+func makeDecoderInputFileInfos(sliceByteCount int, fileIDs []fileID, fileDescriptionPackets map[fileID]fileDescriptionPacket, ifscPackets map[fileID]ifscPacket) ([]decoderInputFileInfo, error) {
 	var decoderInputFileInfos []decoderInputFileInfo
 	for _, fileID := range fileIDs {
 		descriptionPacket, ok := fileDescriptionPackets[fileID]
@@ -82,6 +82,15 @@ func makeDecoderInputFileInfos(fileIDs []fileID, fileDescriptionPackets map[file
 		ifscPacket, ok := ifscPackets[fileID]
 		if !ok {
 			return nil, errors.New("input file slice checksum packet not found")
+		}
+		// The number of checksum pairs must match the number
+		// of slices implied by the file's byte count.
+		expectedPairCount := descriptionPacket.byteCount / sliceByteCount
+		if descriptionPacket.byteCount%sliceByteCount != 0 {
+			expectedPairCount++
+		}
+		if len(ifscPacket.checksumPairs) != expectedPairCount {
+			return nil, errors.New("checksum pair count doesn't match file byte count")
 		}
 		decoderInputFileInfos = append(decoderInputFileInfos, decoderInputFileInfo{
 			fileID,
@@ -286,12 +295,12 @@ func newDecoder(fileIO fileIO, delegate DecoderDelegate, indexPath string, numGo
 		return nil, errors.New("recovery packets found in index file")
 	}
 
-	recoverySet, err := makeDecoderInputFileInfos(indexFile.mainPacket.recoverySet, indexFile.fileDescriptionPackets, indexFile.ifscPackets)
+	recoverySet, err := makeDecoderInputFileInfos(indexFile.mainPacket.sliceByteCount, indexFile.mainPacket.recoverySet, indexFile.fileDescriptionPackets, indexFile.ifscPackets)
 	if err != nil {
 		return nil, err
 	}
 
-	nonRecoverySet, err := makeDecoderInputFileInfos(indexFile.mainPacket.nonRecoverySet, indexFile.fileDescriptionPackets, indexFile.ifscPackets)
+	nonRecoverySet, err := makeDecoderInputFileInfos(indexFile.mainPacket.sliceByteCount, indexFile.mainPacket.nonRecoverySet, indexFile.fileDescriptionPackets, indexFile.ifscPackets)
 	if err != nil {
 		return nil, err
 	}
